@@ -274,6 +274,38 @@ def gen(rng, idx, tier):
                 full[0].setdefault("lib", {})["public.skipExportGlyphs"] = [pick[0]]
                 full[-1].setdefault("lib", {})["public.skipExportGlyphs"] = [pick[0], pick[1]]
                 case["master_lib_skip_lists"] = True
+        if not case.get("sparse_stratum") and rng.random() < 0.25:
+            # anchor propagation asked for as a PRE filter (masters' libs or filters=) in a family
+            # with a composite of a composite whose inner composite has no anchors of its own: the
+            # filter walks the nested bases through the instantiator's interpolated layers
+            for u in case["ds"]["ufos"]:
+                gl = u.get("glyphs") or []
+                simple = [g for g in gl if g["contours"] and g["name"] != ".notdef"]
+                if not simple:
+                    continue
+                base = simple[0]
+                if not any(not a["name"].startswith("_") for a in base["anchors"]):
+                    base["anchors"].append({"name": "top", "x": 120, "y": 600 + len(base["name"])})
+                gl.append({"name": "nz.inner", "width": base["width"], "unicodes": [], "contours": [],
+                           "anchors": [], "components": [{"base": base["name"], "t": [1, 0, 0, 1, 10, 0]}]})
+                gl.append({"name": "nz.outer", "width": base["width"], "unicodes": [], "contours": [],
+                           "anchors": [], "components": [{"base": "nz.inner", "t": [1, 0, 0, 1, 0, 90]}]})
+            via = rng.choice(["lib", "lib", "arg"])
+            if via == "lib":
+                for u in case["ds"]["ufos"]:
+                    u.setdefault("lib", {})["com.github.googlei18n.ufo2ft.filters"] = [
+                        {"name": "propagateAnchors", "pre": True}]
+                case.pop("arg_filters", None)
+            else:
+                case["arg_filters"] = ["PropagateAnchorsFilter:pre"]
+            case["ds"].get("lib", {}).pop("public.skipExportGlyphs", None)
+            case["propagate_pre"] = via
+            if rng.random() < 0.7:
+                case["func"] = rng.choice(["compileInterpolatableTTFsFromDS", "compileVariableTTF",
+                                           "compileVariableTTFs", "compileInterpolatableTTFs"])
+            # (variable feature writers read anchors from the raw sources: a propagated anchor
+            # makes them fail - the sources must be intact after that raise as well)
+            opts.pop("flattenComponents", None)
         case["history"] = rng.choice(["once", "once", "twice"])
         case["opts"] = opts
         # <source> elements built in memory need not have (unique) names
@@ -399,7 +431,8 @@ def run(case):
 
 def _filters_from_names(names):
     import ufo2ft.filters as F
-    return [getattr(F, n)() for n in names]
+    return [getattr(F, n.partition(":")[0])(**({"pre": True} if n.endswith(":pre") else {}))
+            for n in names]
 
 
 def _run(case, bump, counters, tmp):
@@ -422,6 +455,8 @@ def _run(case, bump, counters, tmp):
         bump("family_runs")
         if case.get("master_lib_skip_lists"):
             bump("family_runs_with_differing_skip_lists_in_master_libs")
+        if case.get("propagate_pre"):
+            bump("family_runs_with_anchor_propagation_pre_filter_on_nested_composites")
         sn = case.get("source_names", "given")
         if sn != "given":
             for i, sd in enumerate(doc.sources):
